@@ -181,6 +181,9 @@ func (s *Solver) define(t *Term, sb *strings.Builder) {
 	}
 }
 
+// Leaves returns variables and UF applications reachable from ts.
+func Leaves(ts []*Term) (vars []*Term, apps []*Term) { return collectLeaves(ts) }
+
 // collectLeaves returns variables and UF applications reachable from ts.
 func collectLeaves(ts []*Term) (vars []*Term, apps []*Term) {
 	seen := map[int]bool{}
